@@ -1,4 +1,5 @@
 import Proofs.Lemmas.CostSpec
+import Proofs.Props.C15
 /-!
 # C16 — A PRISM object is a faithful, isolated snapshot of a fully specified System
 
@@ -118,6 +119,22 @@ theorem snapshot_wiring (s : Sys ℝ) (p : Prism ℝ) (d : Dom ℝ) (hd : s.dom 
         · rw [key i j hi hj, key j i hj hi, loI_comm j i, hiI_comm j i]
           rw [hsite j i]
   · cases h
+
+/-- with the Density / Diameter invariants of C15 (which hold after *every* assignment history) the wiring reads: each
+pair's closure sees the arithmetic mean of the two site diameters, and ω is scaled by `ρ_a` on the diagonal and `ρ_a + ρ_b`
+off the diagonal -/
+theorem snapshot_wiring_values (s : Sys ℝ) (p : Prism ℝ) (d : Dom ℝ) (hd : s.dom = some d) (h : s.createPRISM = .ok p)
+    (hρ : C15.DInv s.dens) (hσ : C15.SInv s.diam) (hn1 : s.dens.n = s.n) (hn2 : s.diam.n = s.n)
+    (hsite : ∀ a b, s.dens.site a b = s.dens.site b a)
+    {i j : ℕ} (hi : i < s.n) (hj : j < s.n) (hij : i ≤ j) (di dj ri rj : ℝ)
+    (hdi : s.diam.diam i = some di) (hdj : s.diam.diam j = some dj) (hri : s.dens.rho i = some ri) (hrj : s.dens.rho j = some rj) :
+    p.cloSigma i j = (di + dj) / 2 ∧
+    ∀ l, l < d.length → ∀ O, s.om i j = some O → p.omega.at l i j = O.eval (d.k[l]!) l * (if i = j then ri else ri + rj) := by
+  obtain ⟨_, _, _, _, _, _, hpair, hom⟩ := snapshot_wiring s p d hd h hsite
+  constructor
+  · rw [(hpair i j hij).1, hσ.sigma_ok i j di dj (by rw [hn2]; exact hi) (by rw [hn2]; exact hj) hdi hdj]; rfl
+  · intro l hl O hO
+    rw [(hom l i j hl hi hj hij O hO).1, hρ.site_ok i j ri rj (by rw [hn1]; exact hi) (by rw [hn1]; exact hj) hri hrj]
 
 /-! ## object level: isolation -/
 
